@@ -728,8 +728,22 @@ def pint_diff(node, want, got):
     return other, pd
 
 
+def sequ16_good(ids) -> bool:
+    """the predicate of theorem tlv8_sequ16_exact: the packed lists the current decoder gets RIGHT
+    (zero ids, optionally followed by one last id with a non-zero low byte)"""
+    ids = list(ids)
+    while len(ids) > 1:
+        if ids[0] != 0:
+            return False
+        ids = ids[1:]
+    return not ids or ids[0] == 0 or (ids[0] & 0xFF) != 0
+
+
 def ids_class(want_ids) -> str:
-    """which shape of packed id list the current decoder gets wrong: one id (only possible with a zero low byte) or several"""
+    """which shape of packed id list the current decoder gets wrong: one id (only possible with a zero low byte) or several.
+    A wrong result on a list the theorem says is decoded correctly is NOT the known finding."""
+    if sequ16_good(want_ids):
+        return "regression-on-good-list"
     return "zero-low-byte" if len(want_ids) == 1 else "multi-id"
 
 
@@ -1436,6 +1450,12 @@ def run(ctx):
     stream_charvalue(types, schemas, drv, add, cov, tier, rng(seed, "c16char"))
     stream_database(types, add, cov, tier, rng(seed, "c16db"))
 
+    # ---- stream 6: the secondary codec of characteristic signatures (to_dict / _unpack_value / _pack_value), the exact
+    #      boundary of the linked-services finding, and the catalogue of struct classes vs a source scan
+    stream_signature(types, drv, add, cov, tier, rng(seed, "c16sig"))
+    stream_linked_exact(types, drv, add, cov, tier, rng(seed, "c16good"))
+    catalogue_check(types, add, cov)
+
     # ---- stream 5: decode purity (every decode hands out a fresh message built from the bytes it was given)
     stream_purity(types, add, cov, tier, rng(seed, "c16purity"))
 
@@ -2081,3 +2101,311 @@ def purity_users(types, add, cov, tier, r):
                     f"decode the same bytes again: to_dict() changed from {before[:160]} to {after[:160]}", True,
                     bytes=hx(wire), to_dict_before=before[:3000], to_dict_after=after[:3000])
             cov.case("pu" + name + hx(wire), True, purity_user=name + ".to_dict")
+
+
+# ---------------------------------------------------------------------------- characteristic signatures: secondary codec
+def _sval_py(x, fmt) -> str:
+    import struct as st
+    if x is None:
+        return "n"
+    if isinstance(x, bool):
+        return "b1" if x else "b0"
+    if isinstance(x, int):
+        return "i%d" % x
+    if isinstance(x, float):
+        return "f" + hx(st.pack("<f", x))
+    if isinstance(x, str):
+        if fmt == 0x1B:
+            try:
+                return "x" + hx(bytes.fromhex(x))
+            except ValueError:
+                return "?str"
+        return "t" + hx(x.encode("utf-8"))
+    if isinstance(x, (bytes, bytearray)):
+        return "r" + hx(x)
+    return "?" + type(x).__name__
+
+
+SIG_KEYS = {"type", "iid", "perms", "broadcast_events", "disconnected_events", "format", "unit", "value", "minStep", "minValue", "maxValue"}
+
+
+def impl_sig(obj, fmt) -> str:
+    try:
+        d = obj.to_dict()
+    except Exception as e:  # noqa
+        return exc_class(e)
+    try:
+        extra = sorted(set(d) - SIG_KEYS)
+        mm = (_sval_py(d["minValue"], fmt) + "/" + _sval_py(d["maxValue"], fmt)) if "minValue" in d else "_"
+        return ("ok type=%d iid=%s perms=%s bcast=%d disc=%d format=%s unit=%s value=%s minstep=%s minmax=%s%s" % (
+            int(d["type"], 16), "_" if d["iid"] is None else int(d["iid"]), ",".join(d["perms"]),
+            1 if d.get("broadcast_events") else 0, 1 if d.get("disconnected_events") else 0,
+            d.get("format", "_"), d.get("unit", "_"),
+            _sval_py(d["value"], fmt) if "value" in d else "_",
+            _sval_py(d["minStep"], fmt) if "minStep" in d else "_", mm,
+            (" extra=" + ",".join(extra)) if extra else ""))
+    except Exception as e:  # noqa
+        return "other:shape:" + type(e).__name__
+
+
+def _le(n, k):
+    return bytes((n >> (8 * i)) & 0xFF for i in range(k))
+
+
+def sig_cases(tier, r):
+    """(type, iid, props, pf, range, step, raw) descriptors"""
+    import struct as st
+    cases = []
+    unit_codes = [0x2700, 0x272F, 0x2763, 0x27AD, 0x2731, 0x2703, 0x2701, 0, 0xFFFF]
+    pf_of = lambda f, u=0x2700: bytes([f, 0, u & 0xFF, u >> 8, 1, 0, 0])
+    for props in range(1024):                                    # every combination of the ten defined property bits
+        cases.append((0x25, 10, props, pf_of(0x01), None, None, None))
+    for props in (0x0400, 0x8000, 0xFC00, 0xFFFF, 0x8010):        # undefined high bits
+        cases.append((0x25, 10, props, None, None, None, None))
+    for f in range(256):                                          # every format code
+        cases.append((0x14, 2, 0x0010, pf_of(f, r.choice(unit_codes)), None, None, None))
+    for u in unit_codes + [r.randrange(65536) for _ in range(20)]:
+        for f in (0x04, 0x14):
+            cases.append((0x11, 3, 0x0030, pf_of(f, u), None, None, None))
+    sizes = {0x04: 1, 0x06: 2, 0x08: 4, 0x0A: 8, 0x10: 4}
+    for f, k in sizes.items():
+        top = (1 << (8 * k)) - 1
+        vals = sorted({0, 1, 2, top, top >> 1, (top >> 1) + 1, 10, 100, 0x0100 & top} | set(pattern_ints(k)[:14]))
+        for a in vals:
+            for b in (vals[-1], vals[len(vals) // 2], 0):
+                cases.append((0x23, 7, 0x00B0, pf_of(f, 0x27AD), _le(a, k) + _le(b, k), _le(a, k), _le(b, k)))
+        # wrong sizes / empties / unset
+        for bad in (b"", _le(1, k) + b"\x00", _le(1, k)[:-1] if k > 1 else b"\x01\x02", _le(1, k) * 3):
+            cases.append((0x23, 7, 0x0010, pf_of(f), bad, None, None))
+            cases.append((0x23, 7, 0x0010, pf_of(f), None, bad, None))
+            cases.append((0x23, 7, 0x0010, pf_of(f), None, None, bad))
+    for x in (0.0, -0.0, 1.0, 0.5, -1.5, 100.0, 0.1, 360.0, 1e-3):   # float32: bytes only, never interpreted
+        fb = st.pack("<f", x)
+        cases.append((0x11, 9, 0x0090, pf_of(0x14, 0x272F), fb + st.pack("<f", 100.0), fb, fb))
+    for f in (0x01, 0x19, 0x1B, 0x00, 0x02, 0x15, 0xFF, None):       # non-numeric / unknown formats with descriptors present
+        pf = None if f is None else pf_of(f)
+        for raw in (b"\x00", b"\x01", b"\x02", b"abc", "é€".encode(), b"\xff\xfe", b"", bytes(range(20))):
+            cases.append((0x37, 5, 0x0011, pf, b"\x00\x64", b"\x01", raw))
+    for pf in (b"", b"\x04", bytes(6), bytes(8), bytes(14)):             # presentation format of the wrong size
+        cases.append((0x25, 1, 0x0010, pf, None, None, None))
+    n = 300 if tier == "quick" else 6000
+    for _ in range(n):
+        f = r.choice([0x01, 0x04, 0x06, 0x08, 0x0A, 0x10, 0x14, 0x19, 0x1B, r.randrange(256)])
+        k = sizes.get(f, 4 if f == 0x14 else r.choice([1, 2, 4]))
+        rb = lambda m: bytes(r.choice([0, 1, 0x7F, 0x80, 0xFF, r.getrandbits(8)]) for _ in range(m))
+        if f == 0x14:
+            rb = lambda m: b"".join(st.pack("<f", r.choice([0.0, 1.0, -2.5, 50.0, 0.25])) for _ in range(m // 4))
+        cases.append((r.choice(magic_ints(16, r, 4) + [0x25, 0x14]) or 1, r.choice([None, 0, 1, 65535, r.randrange(65536)]), r.getrandbits(r.choice([10, 16])),
+                      r.choice([None, pf_of(f, r.choice(unit_codes))]),
+                      r.choice([None, rb(2 * k), rb(2 * k), rb(r.randrange(0, 9))]),
+                      r.choice([None, rb(k), rb(k), rb(r.randrange(0, 5))]),
+                      r.choice([None, rb(k), rb(k), rb(r.randrange(0, 9))])))
+    return cases
+
+
+def stream_signature(types, drv, add, cov, tier, r):
+    from ref import hapsig
+    targets = []
+    for t in types:
+        if t["name"] == "Characteristic" and t["module"].endswith("ble.structs"):
+            targets.append(("ble", t))
+        if t["name"] == "Pdu09Characteristic":
+            targets.append(("coap", t))
+    if len(targets) != 2:
+        add("signature:classes-not-found", "BLE Characteristic / CoAP Pdu09Characteristic signature structs not found by reflection", False)
+        return
+    cases = sig_cases(tier, r)
+    H = lambda b: "_" if b is None else hx(b)
+    for variant, t in targets:
+        node, cls = t["node"], t["cls"]
+        need = ("type", "instance_id", "properties", "presentation_format", "valid_range", "step_value")
+        if any(n not in node["names"] for n in need) or not hasattr(cls, "to_dict"):
+            add(f"signature:{variant}:fields-renamed", f"{t['name']} no longer has the fields {need} / to_dict()", False)
+            continue
+        ix = {n: node["names"].index(n) for n in need}
+        reqs = [f"sig {variant} {ty} {'_' if iid is None else iid} {props & 0xFFFF} {H(pf)} {H(rg)} {H(stp)} {H(raw)}"
+                for (ty, iid, props, pf, rg, stp, raw) in cases]
+        model = drv.batch(reqs)
+        for ci, ((ty, iid, props, pf, rg, stp, raw), md) in enumerate(zip(cases, model)):
+            props &= 0xFFFF
+            # the real path: an accessory's signature on the wire -> decode -> (raw value stored by a read) -> to_dict()
+            vs = [None] * len(node["fields"])
+            vs[ix["type"]], vs[ix["instance_id"]], vs[ix["properties"]] = ty, iid, props
+            for name, val in (("presentation_format", pf), ("valid_range", rg), ("step_value", stp)):
+                vs[ix[name]] = val if val else None
+            try:
+                obj = cls.decode(ref.ref_message(node["fields"], vs))
+                for name, val in (("presentation_format", pf), ("valid_range", rg), ("step_value", stp)):
+                    if val is not None and len(val) == 0:
+                        setattr(obj, name, b"")                   # an explicitly empty descriptor cannot travel; set it directly
+                if raw is not None:
+                    obj.raw_value = bytes(raw)
+            except Exception as e:  # noqa
+                add(f"signature:{variant}:construct", f"cannot build the signature object: {type(e).__name__}", False)
+                continue
+            fmt = pf[0] if pf is not None and len(pf) == 7 else None
+            got = impl_sig(obj, fmt)
+            payload = dict(variant=variant, type=ty, iid=iid, properties=props, presentation_format=H(pf), valid_range=H(rg),
+                           step_value=H(stp), raw_value=H(raw), impl=got, model=md)
+            exp = hapsig.expected(variant, props, pf, rg, stp, raw)
+            bad = None
+            if exp is not None and got.startswith("ok "):
+                kv = dict(x.split("=", 1) for x in got[3:].split(" "))
+                if "extra" in kv:
+                    bad = ("extra-keys", kv["extra"], "")
+                else:
+                    for aspect, want in exp.items():
+                        if want != hapsig.WILD and kv.get(aspect) != want:
+                            bad = (aspect, kv.get(aspect), want)
+                            break
+                    if bad is None and (kv["type"] != str(ty) or kv["iid"] != ("_" if iid is None else str(iid))):
+                        bad = ("type-iid", kv["type"] + "/" + kv["iid"], f"{ty}/{iid}")
+            elif exp is not None and all(v != hapsig.WILD for v in exp.values()):
+                bad = ("raises", got, "a dictionary")
+            if bad is not None:
+                add(f"signature:{variant}:to_dict:{bad[0]}",
+                    f"{t['module']}.{t['name']}.to_dict() of a signature (properties 0x{props:04x}, format {H(pf)}, range {H(rg)}, step {H(stp)}, "
+                    f"raw value {H(raw)}): {bad[0]} = {bad[1]} ; the HAP/Bluetooth tables give {bad[2]}", True, expected=exp, **payload)
+            elif got != md:
+                add(f"signature:{variant}:to_dict:model-mismatch", f"to_dict(): implementation {got[:160]} != model {md[:160]}", False,
+                    broken="correspondence Model/Tlv8Sig.v <-> to_dict()/_unpack_value", **payload)
+            cov.case(f"s{variant}{ci}", True, sig_variant=variant, sig_format="none" if fmt is None else ("0x%02x" % fmt if fmt in
+                     (1, 4, 6, 8, 10, 16, 20, 25, 27) else "other"), sig_result=got.split(" ")[0],
+                     sig_descriptors=("R" if rg else "-") + ("S" if stp else "-") + ("V" if raw is not None else "-"))
+        # _pack_value / _unpack_value: the raw value codec used when values are written / read
+        pv = []
+        for f in (None, 0x00, 0x01, 0x04, 0x06, 0x08, 0x0A, 0x10, 0x14, 0x19, 0x1B, 0x02, 0xFF):
+            k = {0x04: 1, 0x06: 2, 0x08: 4, 0x0A: 8}.get(f)
+            if k:
+                top = (1 << (8 * k)) - 1
+                for z in sorted({0, 1, top, top + 1, -1, top >> 1} | set(pattern_ints(k)[:10])):
+                    pv.append((f, "i%d" % z, z))
+            elif f == 0x10:
+                for z in (0, 1, -1, 2 ** 31 - 1, -2 ** 31, 2 ** 31, -2 ** 31 - 1, 300, -300):
+                    pv.append((f, "i%d" % z, z))
+            elif f == 0x01:
+                pv += [(f, "b1", True), (f, "b0", False)]
+            elif f == 0x14:
+                import struct as _st
+                for x in (0.0, 1.0, -2.5, 0.5, 100.0):
+                    pv.append((f, "f" + hx(_st.pack("<f", x)), x))
+            elif f == 0x19:
+                for x in ("", "a", "é€", "x" * 300):
+                    pv.append((f, "t" + hx(x.encode()), x))
+            elif f == 0x1B:
+                for x in (b"", b"\x00", bytes(range(40))):
+                    pv.append((f, "x" + hx(x), x.hex()))
+            else:
+                for x in (b"", b"\x00\x01", bytes(range(10))):
+                    pv.append((f, "r" + hx(x), x))
+        F = lambda f: "_" if f is None else str(f)
+        m_pack = drv.batch([f"pack {F(f)} {sv}" for f, sv, _ in pv])
+        packed = []
+        for (f, sv, py), mp in zip(pv, m_pack):
+            o = cls()
+            if f is not None:
+                o.presentation_format = bytes([f, 0, 0, 0x27, 1, 0, 0])
+            try:
+                ip = "ok " + hx(o._pack_value(py))
+            except Exception as e:  # noqa
+                ip = exc_class(e)
+            if ip != mp:
+                add(f"signature:{variant}:pack_value:model-mismatch", f"_pack_value(format {F(f)}, {sv}): implementation {ip} != model {mp}", False,
+                    variant=variant, format=F(f), value=sv, impl=ip, model=mp)
+            if ip.startswith("ok "):
+                packed.append((f, sv, py, unhx(ip[3:]), o))
+            cov.case(f"pk{variant}{f}{sv}", True, sig_pack_format=F(f))
+        m_unpack = drv.batch([f"unpack {F(f)} {hx(b)}" for f, _, _, b, _ in packed])
+        for (f, sv, py, b, o), mu in zip(packed, m_unpack):
+            try:
+                iu = "ok " + _sval_py(o._unpack_value(b), f)
+            except Exception as e:  # noqa
+                iu = exc_class(e)
+            if iu != "ok " + sv:
+                add(f"signature:{variant}:unpack-pack", f"{t['name']}._unpack_value(_pack_value({sv})) with format {F(f)} = {iu}", True,
+                    variant=variant, format=F(f), value=sv, packed=hx(b), impl=iu)
+            elif iu != mu:
+                add(f"signature:{variant}:unpack_value:model-mismatch", f"_unpack_value(format {F(f)}, {hx(b)}): implementation {iu} != model {mu}", False,
+                    variant=variant, format=F(f), bytes=hx(b), impl=iu, model=mu)
+
+
+# ---------------------------------------------------------------------------- linked services: the exact boundary (theorem tlv8_sequ16_exact)
+def stream_linked_exact(types, drv, add, cov, tier, r):
+    import itertools
+    t = next((x for x in types if any(n["k"] == "pint" and n["w"] == 2 for _, n in x["node"]["fields"])), None)
+    if t is None:
+        cov.extra["linked_exact"] = "no Sequence[u16] field at top level"
+        return
+    node, cls = t["node"], t["cls"]
+    i = next(j for j, (_, n) in enumerate(node["fields"]) if n["k"] == "pint" and n["w"] == 2)
+    alpha = [0, 5, 0x0100, 0x0205, 0xFF00, 0x00FF, 0xFFFF, 0x0001]
+    lists = [list(c) for n in (1, 2, 3) for c in itertools.product(alpha, repeat=n)]
+    for _ in range(300 if tier == "quick" else 20000):
+        lists.append([r.choice(alpha + [0, 0, r.randrange(65536)]) for _ in range(r.randrange(1, 8))])
+    m_good = drv.batch(["good " + ",".join(str(x) for x in l) for l in lists])
+    counts = collections.Counter()
+    for ids, mg in zip(lists, m_good):
+        good = sequ16_good(ids)
+        if (mg == "true") != good:
+            add("linked:good-predicate:model-vs-harness", f"sequ16_good({ids}): Coq says {mg}, harness says {good}", False, ids=str(ids))
+        vs = [None] * len(node["fields"])
+        vs[i] = ids
+        wire = ref.ref_message(node["fields"], vs)
+        try:
+            got = getattr(cls.decode(wire), node["names"][i])
+            right = (got == ids)
+        except Exception as e:  # noqa
+            got, right = exc_class(e), False
+        counts["good" if good else "bad"] += 1
+        if good and not right:
+            add("linked:decode:regression-on-good-list", f"{t['name']}.decode({hx(wire)}): ids {ids} are in the set theorem tlv8_sequ16_exact proves "
+                f"the current decoder handles correctly, but the implementation returned {got}", True, bytes=hx(wire), ids=str(ids), impl=str(got))
+        elif right and not good:
+            add("linked:decode:outside-the-theorem", f"{t['name']}.decode({hx(wire)}): ids {ids} decode correctly although the faithful model says they "
+                f"cannot (the linked-services behaviour changed: re-derive the model and the known findings)", False, bytes=hx(wire), ids=str(ids))
+        cov.case("lx" + hx(wire), True, linked_exact="good" if good else "bad")
+    cov.extra["linked_exact"] = dict(counts)
+
+
+# ---------------------------------------------------------------------------- catalogue: reflection vs an independent source scan
+def catalogue_check(types, add, cov):
+    """every class statement in the package's source files that derives (transitively) from TLVStruct must be in the reflected
+    catalogue - a class in a module that failed to import, or one without @dataclass, would otherwise escape every stream"""
+    import ast
+    import os
+    import aiohomekit
+    root = os.path.dirname(aiohomekit.__file__)
+    classes = {}          # name -> (module, [base names])
+    for dp, dn, fn in os.walk(root):
+        for f in fn:
+            if not f.endswith(".py"):
+                continue
+            path = os.path.join(dp, f)
+            mod = "aiohomekit." + os.path.relpath(path, root)[:-3].replace(os.sep, ".")
+            mod = mod[:-9] if mod.endswith(".__init__") else mod
+            try:
+                tree = ast.parse(open(path, encoding="utf-8").read())
+            except Exception:  # noqa
+                continue
+            for n in ast.walk(tree):
+                if isinstance(n, ast.ClassDef):
+                    bases = [b.id if isinstance(b, ast.Name) else (b.attr if isinstance(b, ast.Attribute) else "") for b in n.bases]
+                    classes[(mod, n.name)] = bases
+    derived = {k for k, b in classes.items() if "TLVStruct" in b}
+    changed = True
+    while changed:
+        changed = False
+        names = {k[1] for k in derived}
+        for k, b in classes.items():
+            if k not in derived and any(x in names for x in b):
+                derived.add(k)
+                changed = True
+    reflected = {(t["module"], t["name"]) for t in types}
+    missing = sorted(derived - reflected)
+    unexpected = sorted(reflected - derived)
+    cov.extra["catalogue"] = dict(reflected=len(reflected), source_scan=len(derived), in_source_not_reflected=[".".join(k) for k in missing],
+                                  reflected_not_in_source=[".".join(k) for k in unexpected],
+                                  modules=sorted({m for m, _ in reflected}))
+    for k in missing:
+        add(f"catalogue:{k[0]}.{k[1]}:not-reflected", f"class {k[0]}.{k[1]} derives from TLVStruct in the source but is not in the reflected catalogue "
+            f"(module not importable, or not a dataclass): no stream exercises it", False, module=k[0], cls=k[1])
